@@ -24,6 +24,27 @@ BODIES = ['1', '"x"', 'null', '{}', 'true', '{"jsonrpc":"2.0","id":1,"result":1}
           '{"jsonrpc":"2.0","id":null,"result":1}']
 
 
+class HierV1(JsonRpcError):
+    """the documented 'independent clients errors' pattern: a base class (given to the client as error_cls) that resolves codes itself"""
+    @classmethod
+    def get_error_cls(cls, code, default):
+        return next(iter((c for c in cls.__subclasses__() if getattr(c, 'code', None) == code)), default)
+
+
+class V1Denied(HierV1):
+    code = 7201
+    message = 'denied'
+
+
+class OtherHier(JsonRpcError):
+    pass
+
+
+class OtherDenied(OtherHier):       # same code in another hierarchy, registered later in the process-wide mapping
+    code = 7201
+    message = 'other'
+
+
 def real_id(ref, n):
     if ref == UNK:
         return 99
@@ -81,7 +102,7 @@ def gen_cases(ctx):
         for strict in (True, False):
             for req_id in (1, '1', 0, '', -1, 'abc'):
                 for rel in ('equal', 'different', 'null', 'absent', 'confused'):
-                    for payload in ('succ', 'null', 'err', 'err-registered', 'err0'):
+                    for payload in ('succ', 'null', 'err', 'err-registered', 'err0', 'err-hier'):
                         for via in ('send', 'call'):
                             if via == 'call' and req_id != 1:
                                 continue
@@ -299,10 +320,13 @@ def run_single(c, rec):
             o['error'] = {'code': 4321, 'message': 'boom', 'data': None}
         elif p == 'err0':
             o['error'] = {'code': 0, 'message': ''}
+        elif p == 'err-hier':
+            o['error'] = {'code': 7201, 'message': 'denied'}
         else:
             o['error'] = {'code': -32601, 'message': 'Method not found'}
         body = json.dumps(o)
-    client = make_client(c['kind'], lambda text, is_notif, kw: body, strict=strict)
+    ckw = dict(error_cls=HierV1) if c.get('payload') == 'err-hier' else {}
+    client = make_client(c['kind'], lambda text, is_notif, kw: body, strict=strict, **ckw)
     request = Request('m', [1], id=req_id)
     if c['via'] == 'call':
         out = drive(c["kind"], lambda: client.call('m', 1))
@@ -336,8 +360,9 @@ def run_single(c, rec):
             if got[0] != 'ok' or not typed_eq(got[1], want):
                 return bad(rec, c, 'C08:single:result', want, show(got))
         else:
-            code = {'err': 4321, 'err0': 0, 'err-registered': -32601}[p]
-            if got[0] != 'rpc' or got[1].code != code or (p == 'err-registered' and type(got[1]) is not MethodNotFoundError):
+            code = {'err': 4321, 'err0': 0, 'err-registered': -32601, 'err-hier': 7201}[p]
+            if got[0] != 'rpc' or got[1].code != code or (p == 'err-registered' and type(got[1]) is not MethodNotFoundError) or \
+                    (p == 'err-hier' and type(got[1]) is not V1Denied):
                 return bad(rec, c, 'C08:single:server error not raised as its typed exception', code, show(got))
     else:
         r = got[1] if got[0] == 'ok' else None
